@@ -29,6 +29,7 @@ type c01Case struct {
 	meta      map[string]string // header name -> value
 	integrity string            // on+md5 | on | off
 	start     string            // absent | existing
+	sibling   string            // second key uploaded afterwards (sibling group)
 }
 
 func (cs c01Case) String() string {
@@ -135,6 +136,13 @@ func runC01(c *engine.Ctx) {
 				cases = append(cases, c01Case{kind: k, group: "key", path: p, key: keys[n], keyName: n, size: 17, pattern: "mod251", integrity: "on", start: "absent"})
 			}
 		}
+		// G4: sibling keys that differ only in a separator-like character must stay distinct objects
+		for _, pair := range [][2]string{{"r/2024", "r_2024"}, {"r/2024", "r\\2024"}, {"r_2024", "r\\2024"}, {"a/b/c", "a_b_c"}, {"a/b_c", "a_b/c"}, {"Key", "key"}} {
+			for _, p := range []string{"put", "backend-api"} {
+				cases = append(cases, c01Case{kind: k, group: "sibling", path: p, key: pair[0], keyName: pair[0] + "|" + pair[1], sibling: pair[1], size: 11, pattern: "mod251", integrity: "on", start: "absent",
+					meta: map[string]string{"x-amz-meta-a": "first"}})
+			}
+		}
 		// G3
 		metaKeys := [][2]string{{"x-amz-meta-a", "v"}, {"x-amz-meta-b", ""}, {"Content-Type", "text/x-verif; charset=utf-8"}, {"Content-Encoding", "gzip"}, {"Content-Disposition", `attachment; filename="a b.txt"`}}
 		for mask := 0; mask < 32; mask++ {
@@ -179,6 +187,9 @@ func runC01(c *engine.Ctx) {
 		}
 		if cs.group == "meta" {
 			cond = "meta,start=" + cs.start
+		}
+		if cs.group == "sibling" {
+			cond = "sibling-keys"
 		}
 		c.Report(&engine.Violation{Sig: sig("C01", backendClass(cs.kind), cs.path, f, cond), World: string(cs.kind), History: []string{cs.String()}, Msg: cs.String() + ": " + msg})
 	})
@@ -311,6 +322,20 @@ func c01Run(c *engine.Ctx, cs c01Case) (field, msg string) {
 	}
 	if cs.path != "backend-api" && cs.path != "backend-api-nil" && upETag == "" {
 		return "upload-etag", "upload response carries no ETag"
+	}
+	if cs.sibling != "" {
+		// upload the sibling with the same size but different bytes and metadata, then re-read the first key
+		sb := c01Body(cs.size, "ff")
+		r := w.Do(drv.Req{Method: "PUT", Path: "/aaa/" + cs.sibling, Body: sb, Header: drv.H("x-amz-meta-a", "second", "Content-Type", "text/second")})
+		evals++
+		if r.Status != 200 {
+			return "sibling-upload", "sibling PUT answered " + r.Short()
+		}
+		sv := w.Get("aaa", cs.sibling)
+		evals++
+		if f, m := checkObjView(sv, &model.Obj{Body: sb, Meta: map[string]string{"x-amz-meta-a": "second"}}, false); f != "" {
+			return "sibling-get-" + f, "sibling key: " + m
+		}
 	}
 	want := &model.Obj{Body: body, Meta: wantMeta}
 	for i := 0; i < 2; i++ {
